@@ -6,6 +6,7 @@ import (
 	"fmt"
 	"math/rand"
 	"os"
+	"strings"
 
 	h "verifharness"
 )
@@ -15,7 +16,26 @@ func main() {
 	tier := flag.String("tier", "quick", "quick or thorough")
 	seed := flag.Int64("seed", 1, "PRNG seed")
 	out := flag.String("out", "", "output file (default stdout)")
+	rerun := flag.String("rerun", "", "file of recorded case lines: run the implementation again on their inputs and print fresh case lines")
 	flag.Parse()
+	if *rerun != "" {
+		data, err := os.ReadFile(*rerun)
+		if err != nil {
+			fmt.Fprintln(os.Stderr, err)
+			os.Exit(2)
+		}
+		for _, l := range strings.Split(string(data), "\n") {
+			if strings.TrimSpace(l) == "" {
+				continue
+			}
+			nl, err := h.Rerun(l)
+			if err != nil {
+				fmt.Fprintln(os.Stderr, "rerun:", err)
+			}
+			fmt.Println(nl)
+		}
+		return
+	}
 
 	w := bufio.NewWriterSize(os.Stdout, 1<<20)
 	if *out != "" {
